@@ -60,6 +60,7 @@ pub fn judge(script: &Script, obs: &Observation) -> CaseResult {
         Some(Fault::EofAt(_)) | Some(Fault::EofAfter(_)) => "fault_eof",
         Some(Fault::ReadErrorAfter(_)) => "fault_read_error",
         Some(Fault::WriteErrorAfter(_)) => "fault_write_error",
+        Some(Fault::WriteZeroAfter(_)) => "fault_write_accepts_nothing",
         Some(Fault::WriteInterruptedOnce { .. }) => "fault_transient_write_error",
         Some(Fault::Garbage(_)) => "fault_garbage",
         None => "last_handle_dropped",
